@@ -11,10 +11,10 @@ import RV.C04.QueryLemmas
   Statements first (full strength), then what is proved:
     * `pushdown_partial`, `eval_correct_partial`, `ask_correct_partial`, `construct_correct_partial`
       for the operators named by `Alg.inFragment` (BGP incl. rdflib's re-ordering, lazy and non-lazy Join, Union,
-      Filter / Extend with EXISTS-free expressions, Values) under `Alg.safe`;
+      Filter / Extend with EXISTS-free expressions, Values, Minus, Graph, sub-select) under `Alg.safe`;
     * `*_witness`: the three ways rdflib's `_vars` annotation is inexact (known findings C04-K1..K3) falsify the
       unconditional statement on concrete queries — which is why `Alg.safe` is a hypothesis;
-    * the remaining operators (LeftJoin, Minus, Graph, sub-select, EXISTS) are covered by `Statement_pushdown`
+    * the remaining operators (LeftJoin, EXISTS) are covered by `Statement_pushdown`
       only as a statement; the harness checks model ≡ implementation ≡ specification on them on every run.
 -/
 namespace RV.C04
@@ -64,25 +64,25 @@ def Statement_eval_correct : Prop :=
 
 /-! ### Proved: the fragment -/
 
-theorem pushdown_partial (n : Nat) (D : Dataset) (P : Alg) (hf : P.inFragment = true) (hs : P.safe = true)
-    (hws : WellScoped n P) (g : Graph) (μ0 : Row n) :
+theorem pushdown_partial (n : Nat) (D : Dataset) (P : Alg) (hD : D.WF) (hf : P.inFragment = true)
+    (hs : P.safe = true) (hws : WellScoped n P) (g : Graph) (μ0 : Row n) :
     (Model.evalPart D g μ0 P).Perm (push μ0 (Spec.eval D g Row.empty P)) :=
-  pushdown_fragment P hf hs hws g μ0
+  pushdown_fragment hD P hf hs hws g μ0
 
 /-- at the top of a query nothing is pushed in: the model's bag IS the algebra's bag -/
-theorem evalPart_top (n : Nat) (D : Dataset) (P : Alg) (hf : P.inFragment = true) (hs : P.safe = true)
-    (hws : WellScoped n P) (g : Graph) :
+theorem evalPart_top (n : Nat) (D : Dataset) (P : Alg) (hD : D.WF) (hf : P.inFragment = true)
+    (hs : P.safe = true) (hws : WellScoped n P) (g : Graph) :
     (Model.evalPart D g (Row.empty : Row n) P).Perm (Spec.eval D g Row.empty P) := by
-  simpa using pushdown_fragment P hf hs hws g (Row.empty : Row n)
+  simpa using pushdown_fragment hD P hf hs hws g (Row.empty : Row n)
 
-theorem eval_correct_partial (n : Nat) (D : Dataset) (q : Query) (hf : q.inFragment = true) (hs : q.safe = true)
-    (hws : WellScoped n q.pattern) (hg : q.groundTemplate) :
+theorem eval_correct_partial (n : Nat) (D : Dataset) (q : Query) (hD : D.WF) (hf : q.inFragment = true)
+    (hs : q.safe = true) (hws : WellScoped n q.pattern) (hg : q.groundTemplate) :
     ResultEq (Model.evalQuery (n := n) D q) (Spec.evalQuery D q) := by
   cases q with
   | select pv p =>
-    exact ⟨rfl, (evalPart_top n D p hf hs hws D.dflt).map _⟩
+    exact ⟨rfl, (evalPart_top n D p hD hf hs hws D.dflt).map _⟩
   | ask pv p =>
-    have h := evalPart_top n D p hf hs hws D.dflt
+    have h := evalPart_top n D p hD hf hs hws D.dflt
     simp only [Model.evalQuery, Spec.evalQuery, ResultEq]
     have : ((Model.evalPart D D.dflt (Row.empty : Row n) p).map (·.restrict pv)).isEmpty =
         (Spec.eval D D.dflt (Row.empty : Row n) p).isEmpty := by
@@ -92,7 +92,7 @@ theorem eval_correct_partial (n : Nat) (D : Dataset) (q : Query) (hf : q.inFragm
         cases hB : Spec.eval D D.dflt (Row.empty : Row n) p <;> simp_all
     rw [this]
   | construct tpl pv p =>
-    have h := evalPart_top n D p hf hs hws D.dflt
+    have h := evalPart_top n D p hD hf hs hws D.dflt
     obtain ⟨hg1, hg2⟩ := hg
     simp only [Model.evalQuery, Spec.evalQuery, ResultEq]
     intro t
@@ -128,10 +128,10 @@ theorem eval_correct_partial (n : Nat) (D : Dataset) (q : Query) (hf : q.inFragm
         | some y => exact absurd ((hb μ hμ).2 v (by simp [hget])) h1
 
 /-- ASK is true iff the algebra's multiset is non-empty -/
-theorem ask_correct_partial (n : Nat) (D : Dataset) (pv : List Nat) (p : Alg) (hf : p.inFragment = true)
-    (hs : p.safe = true) (hws : WellScoped n p) :
+theorem ask_correct_partial (n : Nat) (D : Dataset) (pv : List Nat) (p : Alg) (hD : D.WF)
+    (hf : p.inFragment = true) (hs : p.safe = true) (hws : WellScoped n p) :
     Model.evalQuery (n := n) D (.ask pv p) = .bool (!(Spec.eval D D.dflt (Row.empty : Row n) p).isEmpty) := by
-  have := eval_correct_partial n D (.ask pv p) hf hs hws trivial
+  have := eval_correct_partial n D (.ask pv p) hD hf hs hws trivial
   simp only [Spec.evalQuery] at this
   cases hm : Model.evalQuery (n := n) D (.ask pv p) with
   | bool b => rw [hm] at this; simp only [ResultEq] at this; rw [this]
@@ -139,12 +139,12 @@ theorem ask_correct_partial (n : Nat) (D : Dataset) (pv : List Nat) (p : Alg) (h
   | graph _ => simp [Model.evalQuery] at hm
 
 /-- CONSTRUCT yields the (blank-node-free) template instantiated over the algebra's multiset -/
-theorem construct_correct_partial (n : Nat) (D : Dataset) (tpl : List TTP) (pv : List Nat) (p : Alg)
+theorem construct_correct_partial (n : Nat) (D : Dataset) (tpl : List TTP) (pv : List Nat) (p : Alg) (hD : D.WF)
     (hf : p.inFragment = true) (hs : p.safe = true) (hws : WellScoped n p)
     (hg : (Query.construct tpl pv p).groundTemplate) :
     ResultEq (Model.evalQuery (n := n) D (.construct tpl pv p))
       (.graph (Spec.instTemplate tpl (Spec.eval D D.dflt (Row.empty : Row n) p) 0)) :=
-  eval_correct_partial n D (.construct tpl pv p) hf hs hws hg
+  eval_correct_partial n D (.construct tpl pv p) hD hf hs hws hg
 
 end RV.C04
 
